@@ -8,6 +8,10 @@ Driver for C20.
           B = Q (real kill): exactly one kill op  Y<p> (checkpoint killed at its numbered crash point p)
           | V<i>.<p> (restore of id #i killed at point p); the ops before it run in a child process that is really
           killed there, the ops after it on a NEW store opened on the directory the dead child left (`Model.reopen`)
+          | W<p>.<sel>.<a> (checkpoint whose `write_all` is SPLIT by the hook at a byte offset k chosen by selector
+          sel/a from the real bytes, killed at point p of the extended list `Model.checkpointStepsK`; p = 4 is the point
+          INSIDE the write; selectors: 0 = min(a, len-1) · 1 = len - min(a, len) · 2 = len*min(a,32)/32 · 3 / 4 / 5 = the
+          a-th offset inside a multi-byte character / a number / an escape sequence (always a strict prefix))
   obs  := step;step;…   step := res/gets/keys/len/metas/files[/crash]      (see harness/src/bin/c20.rs)
           kill step := dead@<label>|exit / files / id>ok=<view>|id><kind>=u|c,…   predicted from `Model.checkpointSteps`,
           `restoreSteps`, `diesAt`, `pointLabel`, `crashAt`/`crashDir` — the definitions Theorems2.lean is about
@@ -23,6 +27,7 @@ inductive COp where
   | event (k v : Nat)      -- `E<k>.<v>`: `StatefulOperator::process` with a process function that puts v under k
   | kill (p : Nat)         -- `Y<p>` (kind Q): `checkpoint` in a child process that is KILLED at its crash point p
   | killRestore (i p : Nat) -- `V<i>.<p>` (kind Q): `restore` of the i-th id in a child process killed at its crash point p
+  | killW (p sel a : Nat)  -- `W<p>.<sel>.<a>` (kind Q): `checkpoint` with the split write (`arm_split`), killed at point p
 deriving Repr
 
 structure Case where
@@ -52,6 +57,7 @@ def parseOp (s : String) : Option COp :=
   | "R", some [i] => some (.restore i)
   | "Y", some [p] => some (.kill p)
   | "V", some [i, p] => some (.killRestore i p)
+  | "W", some [p, sel, a] => if sel ≤ 5 then some (.killW p sel a) else none
   | "A", some [d] => some (.advance d)
   | _, _ => none
 
@@ -68,7 +74,7 @@ def parseCase (line : String) : Option Case :=
       | .crash :: _ => [.crash]
       | o :: r => o :: cut r
     if !file && ops.any (fun o => match o with | .failCk => true | _ => false) then none else
-    let isKill := fun (o : COp) => match o with | .kill _ | .killRestore .. => true | _ => false
+    let isKill := fun (o : COp) => match o with | .kill _ | .killRestore .. | .killW .. => true | _ => false
     let special := fun (o : COp) => match o with | .crash | .failCk | .event .. => true | _ => false
     -- kind Q: exactly one kill op, no analysis / injection ops; the other kinds: no kill op
     if b = "Q" && ((ops.filter isKill).length != 1 || ops.any special) then none else
@@ -193,6 +199,7 @@ def toOp (ids : List Id) : COp → Op
   | .failCk => .advance 0      -- not used: `modelSteps` handles `failCk` itself
   | .kill _ => .advance 0      -- not used: `modelSteps` handles the kill ops itself
   | .killRestore .. => .advance 0
+  | .killW .. => .advance 0
 
 def showDir (F : List (Id × Option (List Nat))) : String :=
   listOr ((sortBy (fun a b => idLt a.1 b.1) F).map fun (i, c) => s!"{showId i}={showFile (fileObs c)}")
@@ -210,8 +217,27 @@ def killLine (cfg : Cfg) (steps : List PStep) (F : List (Id × Option (List Nat)
   (if diesAt steps p then s!"dead@{pointLabel steps p}" else "exit") ++ "/" ++ showDir F ++ "/"
     ++ listOr (ids.map (probeLine cfg F clock))
 
+/-- the split offset in the MODEL's bytes that stands for the selector's offset in the real bytes: same position class
+(0 / strict prefix / everything), which is all a codec-independent observation can depend on -/
+def modelOffset (sel a len : Nat) : Nat :=
+  match sel with
+  | 0 => min a (len - 1)
+  | 1 => len - min a len
+  | 2 => len * min a 32 / 32
+  | _ => len / 2
+
 def modelSteps (cfg : Cfg) : World → List Id → List COp → List String
   | _, _, [] => []
+  | W, ids, .killW p sel a :: ops =>
+    -- `Model.checkpointStepsK`: the call with the crash point inside `write_all`; `Model.crashAtK` the directory left
+    let k := modelOffset sel a (natCodec.ser (live W.store W.clock)).length
+    let steps := checkpointStepsK natCodec cfg W k
+    let F := crashAtK natCodec cfg W k p
+    let ids' := ids ++ [newId cfg W]
+    -- 4th field: killed INSIDE the write - the file is the exact prefix, and the rebuilt truncation restores alike
+    let recon := if p == 4 && diesAt steps p then
+        "P:" ++ ((probeLine cfg F W.clock (newId cfg W)).splitOn ">").getLast! else "-"
+    (killLine cfg steps F W.clock p ids' ++ "/" ++ recon) :: modelSteps cfg (reopen F W.clock) ids' ops
   | W, ids, .kill p :: ops =>
     -- `Model.checkpointSteps` numbers the crash points; `Model.crashAt` is the directory the dead child leaves;
     -- the ops that follow run on `Model.reopen` of that directory (same clock reading: the parent's injected clock)
@@ -287,14 +313,32 @@ def parseFiles (files : String) : Option (List (String × FileObs)) :=
     | [i, c] => (parseFile c).map fun c => (i, c)
     | _ => none
 
-/-- `dead@<label>/<files>/<probes>` | `exit/<files>/<probes>` -/
+/-- `P|N:ok=<view>` | `P|N:<kind>=u|c` | `-` -/
+def parseRecon (s : String) : Option (Option ReconObs) :=
+  if s = "-" then some none else
+  match s.splitOn ":" with
+  | flag :: rest =>
+    let r := ":".intercalate rest
+    if flag != "P" && flag != "N" then none else
+    match r.splitOn "=" with
+    | ["ok", v] => (parseView v).map fun v => some { prefixExact := flag = "P", restored := some v, unchanged := false }
+    | [_, u] => some (some { prefixExact := flag = "P", restored := none, unchanged := u = "u" })
+    | _ => none
+  | _ => none
+
+/-- `dead@<label>/<files>/<probes>[/<recon>]` | `exit/<files>/<probes>[/<recon>]` -/
 def parseKill (s : String) : Option (KillObs × String) :=
   match s.splitOn "/" with
-  | [h, files, probes] => do
+  | h :: files :: probes :: more => do
     let files ← parseFiles files
     let probes ← parseList probes parseProbe
-    if h = "exit" then pure ({ dead := false, files := files, probes := probes }, "exit")
-    else if h.startsWith "dead@" then pure ({ dead := true, files := files, probes := probes }, (h.drop 5).toString)
+    let recon ← match more with
+      | [] => some none
+      | [r] => parseRecon r
+      | _ => none
+    if h = "exit" then pure ({ dead := false, files := files, probes := probes, recon := recon }, "exit")
+    else if h.startsWith "dead@" then
+      pure ({ dead := true, files := files, probes := probes, recon := recon }, (h.drop 5).toString)
     else none
   | _ => none
 
@@ -337,7 +381,7 @@ def toOOps : List String → List COp → List Obs → List OOp
 def countP {α : Type} (p : α → Bool) (xs : List α) : Nat := (xs.filter p).length
 
 def isKillOp : COp → Bool
-  | .kill _ | .killRestore .. => true
+  | .kill _ | .killRestore .. | .killW .. => true
   | _ => false
 
 /-- kind Q: the child's calls (Spec.runOk), the verdict on what the dead child left (Spec.killOk), the reopened store's
@@ -354,7 +398,10 @@ def oracleReal (cs : Case) (o : String) : String :=
       match runOk true cs.maxCk 0 {} oops1 os1 with
       | .error (n, e) => s!"fail {e}@{n}"
       | .ok r =>
-        let isCk := match kop with | .kill _ => true | _ => false
+        let isCk := match kop with | .kill _ | .killW .. => true | _ => false
+        let isW := match kop with | .killW .. => true | _ => false
+        -- a child killed at the point inside the write must come with the comparison against the reconstruction
+        if isW && label = "partial" && k.recon.isNone then s!"fail real_partial_write_not_compared@{ops1.length}" else
         match killOk cs.maxCk r isCk k with
         | .error e => s!"fail {e}@{ops1.length}"
         | .ok old =>
@@ -364,8 +411,17 @@ def oracleReal (cs : Case) (o : String) : String :=
           | .error (n, e) => s!"fail {e}@{n}"
           | .ok r2 =>
             let extra := k.probes.filter fun p => !(r.taken.any (·.1 == p.id))
+            let selTag := match kop with
+              | .killW _ sel a => [s!"split_sel_{sel}"]
+                  ++ (if sel == 1 && a == 0 then ["split_at_len"] else [])
+                  ++ (if (sel == 0 || sel == 2) && a == 0 then ["split_at_0"] else [])
+              | _ => []
             let tags := ["file", "real_kill", if isCk then "kill_in_checkpoint" else "kill_in_restore",
                 "kill_at_" ++ label]
+              ++ (if isW then ["split_write"] ++ selTag else [])
+              ++ (match k.recon with
+                  | some rc => ["real_partial_write", if rc.restored.isSome then "partial_write_restores_complete" else "partial_write_restore_is_error"]
+                  | none => [])
               ++ (if isCk && extra.any (fun p => p.restored.isSome) then ["interrupted_complete"] else [])
               ++ (if isCk && k.dead && extra.any (fun p => p.restored.isNone) then ["interrupted_error"] else [])
               ++ (if isCk && !snapOk r.prev.view then ["interrupted_holds_unreadable_value"] else [])
